@@ -37,12 +37,64 @@ ASSUMPTIONS = [
     "objects and by the model inside Coq; compared: every field of every item of the original and of both copies",
     "write() equality of copy and original is checked on the implementation (byte-identical text); in the model it "
     "follows from equality of the states (C17_write_partial); the writer model itself belongs to C03/C11/C16",
+    "typed header payloads: the model's item carries unit / value / descr as text (Items.item: it_unit it_value it_descr "
+    ": str; ItemsObs.sh_item prints them as they are), so it cannot tell a value None from the text 'None', 0 from '0' "
+    "or '' from None.  Items whose unit / value / descr are None, '', 0, 0.0, ints, floats, NaN, bools, numpy scalars "
+    "(PAYLOAD_VALUES x PAYLOAD_UNITS x PAYLOAD_DESCRS, every combination; also set through s[key] = value) are "
+    "therefore judged by the direct oracle only: every field of the copy is compared with the original as (type name, "
+    "repr), at item, section (header and curve sections, operation sequences) and LASFile level (~Well, ~Params, a "
+    "custom section; edits addh / setv of generated specs)",
 ]
 
 COPIERS = [("pickle%d" % p, (lambda x, p=p: pickle.loads(pickle.dumps(x, protocol=p)))) for p in range(6)]
 COPIERS.append(("deepcopy", copy.deepcopy))
 COPIERS_EXTRA = [("pypickle%d" % p, (lambda x, p=p: pickle._loads(pickle._dumps(x, protocol=p)))) for p in (0, 2, 5)]
 ALL_COPIERS = dict(COPIERS + COPIERS_EXTRA)
+
+# ---- typed payloads (implementation side only: the model's fields are text) ---------------------------------------
+PAYLOAD_VALUES = [None, "", 0, 0.0, 7, -2.5, "text", True, False, np.float64(1.5), np.int64(3), np.float32(0.5),
+                  np.int32(0), np.bool_(False), float("nan"), "0", "None"]
+PAYLOAD_UNITS = ["", None, "m"]
+PAYLOAD_DESCRS = ["", "a description", None]
+N_PAYLOADS = len(PAYLOAD_VALUES) * len(PAYLOAD_UNITS) * len(PAYLOAD_DESCRS)
+
+
+def payload_of(tag):
+    """(unit, value, descr) an item / a value carrying the tag  v<n> | p<n>  gets in a typed sequence: every
+    combination of PAYLOAD_VALUES x PAYLOAD_UNITS x PAYLOAD_DESCRS as n runs through range(N_PAYLOADS)"""
+    n = int(tag[1:]) if isinstance(tag, str) else int(tag)
+    nv, nu = len(PAYLOAD_VALUES), len(PAYLOAD_UNITS)
+    return (PAYLOAD_UNITS[(n // nv) % nu], PAYLOAD_VALUES[n % nv], PAYLOAD_DESCRS[(n // (nv * nu)) % len(PAYLOAD_DESCRS)])
+
+
+class TypedSim(ic.Sim):
+    """items_common.Sim whose items carry the typed payload of their tag instead of the texts u<tag> / <tag> / d<tag>;
+    s[key] = value, s[int] = value and s.key = value set the typed value of the tag too"""
+
+    def mk(self, name, val, dat):
+        from lasio import CurveItem, HeaderItem
+        u, v, d = payload_of(val)
+        if self.curve:
+            return CurveItem(name, unit=u, value=v, descr=d, data=ic.parse_data(dat))
+        return HeaderItem(name, unit=u, value=v, descr=d)
+
+    def apply(self, f):
+        c, s = f[0], self.s
+        if c not in ("v", "w", "y"):
+            return ic.Sim.apply(self, f)
+        val = payload_of(f[2])[1]
+        try:
+            if c == "v":
+                s[f[1]] = val
+            elif c == "w":
+                s[int(f[1])] = val
+            else:
+                setattr(s, f[1], val)
+                if f[1] in s.__dict__ and f[1] != "mnemonic_transforms":
+                    del s.__dict__[f[1]]
+        except Exception as e:      # noqa: BLE001
+            return ic.exc(e)
+        return "ok"
 
 
 # ---- canonical content -------------------------------------------------------------------------------
@@ -246,6 +298,17 @@ def build_generated(spec):
                 las.append_curve(e[1], np.array([1.5, np.nan]))
             elif e[0] == "addd":
                 las.append_curve(e[1], typed_array(e[2]), unit="u" + e[2], descr="curve of kind " + e[2])
+            elif e[0] == "addh":
+                # a header item with a typed payload (value None / 0 / numpy scalar ..., unit None, blank descr) in
+                # ~Well, ~Params or a custom section
+                u, v, d = payload_of(e[3])
+                header_section(las, e[1]).append(lasio.HeaderItem(e[2], u, v, d))
+            elif e[0] == "setv":
+                sec = header_section(las, e[1])
+                u, v, d = payload_of(e[3])
+                sec[e[2]].value = v
+                if e[4]:
+                    sec[e[2]].unit, sec[e[2]].descr = u, d
             elif e[0] == "idx":
                 # an in-place correction of one index sample (the last value, hence STOP, is kept when e[1] == 0)
                 if len(las.curves) and las.curves[0].data.dtype.kind == "f" and len(las.curves[0].data) > e[1]:
@@ -253,6 +316,18 @@ def build_generated(spec):
         except (IndexError, KeyError):
             pass
     return las
+
+
+def header_section(las, which):
+    """w ~Well, p ~Params, x a custom section (created when missing)"""
+    import lasio
+    if which == "w":
+        return las.well
+    if which == "p":
+        return las.params
+    if "Tools" not in las.sections:
+        las.sections["Tools"] = lasio.SectionItems()
+    return las.sections["Tools"]
 
 
 ARRAY_KINDS = ["f4", "f2", "i4", "i8", "b1", "M8", "O", "2d", "2df4", "empty", "emptyi4", "U", "0d"]
@@ -296,8 +371,12 @@ def gen_spec(rng):
     if rng.random() < 0.4:          # the dtypes= read option, one entry per curve (DEPT included)
         spec["dtypes"] = [rng.choice(READ_DTYPES) for _ in range(1 + len(spec["c"]))]
     for _ in range(rng.randint(0, 3)):
-        k = rng.choice(["delc", "delp", "delw", "addp", "addc", "idx", "addd", "addd"])
-        if k == "addd":
+        k = rng.choice(["delc", "delp", "delw", "addp", "addc", "idx", "addd", "addd", "addh", "addh", "setv"])
+        if k == "addh":
+            spec["edits"].append([k, rng.choice("wpx"), rng.choice(names + ["RUN"]), rng.randrange(N_PAYLOADS)])
+        elif k == "setv":
+            spec["edits"].append([k, rng.choice("wpx"), rng.choice([0, 1, -1]), rng.randrange(N_PAYLOADS), rng.random() < 0.5])
+        elif k == "addd":
             spec["edits"].append([k, rng.choice(names + ["A:1"]), rng.choice(ARRAY_KINDS)])
         elif k == "idx":
             spec["edits"].append([k, rng.choice([0, 0, 1])])
@@ -331,19 +410,43 @@ def seq_observation(sim, copier_name):
     return "\n".join(lines)
 
 
-def check_seq(tr, curve, ops, copiers):
-    sim = ic.Sim(tr, curve)
+def check_seq(tr, curve, ops, copiers, typed=False):
+    """typed: the items carry the typed payload of their tag (TypedSim) instead of the texts the model knows"""
+    sim = (TypedSim if typed else ic.Sim)(tr, curve)
     for o in ops:
         sim.apply(o)
     for cn in copiers:
         bad = check_copy(sim.s, cn)
         if bad:
-            return "section after %s (transforms=%s): %s" % (ops, tr, bad)
+            return "section after %s (transforms=%s%s): %s" % (ops, tr, typed_note(sim, typed), bad)
         for j, it in enumerate(list(list.__iter__(sim.s))):
             bad = check_copy(it, cn)
             if bad:
-                return "item %d (%s) of the section after %s: %s" % (j, it.mnemonic, ops, bad)
+                return "item %d (%s) of the section after %s%s: %s" % (j, it.mnemonic, ops, typed_note(sim, typed), bad)
     return None
+
+
+def typed_note(sim, typed):
+    if not typed:
+        return ""
+    return "; typed payloads, items (mnemonic, unit, value, descr) = %r" % (
+        [(i.original_mnemonic, i.unit, i.value, i.descr) for i in list.__iter__(sim.s)],)
+
+
+def typed_sequences(ctx):
+    """(tr, curve, ops, family): operation sequences whose items carry typed payloads.  EXHAUSTIVE: one item of every
+    payload (N_PAYLOADS combinations of value x unit x descr) in a header and in a curve section, appended alone and
+    after / before an item of another payload; SAMPLED: random sequences (s[key] = typed value included)"""
+    for curve in (False, True):
+        for n in range(N_PAYLOADS):
+            yield n % 2 == 0, curve, ic.instantiate([("a", "A")], curve, start=n - 1), "typed payload, one item"
+    for n in range(N_PAYLOADS):
+        yield n % 2 == 1, False, ic.instantiate([("a", "A"), ("a", "A"), ("v", "A:1")], False, start=n - 1), "typed payload, a a v"
+    for j in range(1500 if ctx.thorough else 200):
+        tr = ctx.rng.random() < 0.5
+        curve = ctx.rng.random() < 0.3
+        tm = ic.random_sequence(ctx.rng, 10, tr, curve)
+        yield tr, curve, ic.instantiate(tm, curve, start=ctx.rng.randrange(N_PAYLOADS)), "typed payload, random<=10"
 
 
 def run(ctx):
@@ -395,6 +498,14 @@ def run(ctx):
         bad = check_seq(tr, True, ops, names_all if j % 3 == 0 else names)
         if bad:
             res.oracle_violations.append({"payload": {"kind": "seq", "tr": tr, "curve": True, "ops": ops}, "what": bad})
+    # 1c. items with typed payloads (value / unit / descr None, '', 0, 0.0, ints, floats, bools, numpy scalars): the
+    # model's fields are text, judged by the direct oracle only
+    for j, (tr, curve, ops, fam) in enumerate(typed_sequences(ctx)):
+        n_typed += 1
+        hist[fam + " (oracle only)"] = hist.get(fam + " (oracle only)", 0) + 1
+        bad = check_seq(tr, curve, ops, names_all if j % 3 == 0 else names, typed=True)
+        if bad:
+            res.oracle_violations.append({"payload": {"kind": "seqv", "tr": tr, "curve": curve, "ops": ops}, "what": bad})
     # 2. LASFiles: corpus and generated
     n_files = 0
     for path in corpus_files(ctx.thorough):
@@ -421,7 +532,7 @@ def run(ctx):
         bad = check_object_tree(las, names_all if j % 4 == 0 else names)
         if bad:
             res.oracle_violations.append({"payload": {"kind": "gen", "spec": spec}, "what": "generated %r: %s" % (spec, bad)})
-    res.oracle_violations.sort(key=lambda v: len(v["payload"].get("ops", [])) if v["payload"]["kind"] == "seq" else 99)
+    res.oracle_violations.sort(key=lambda v: len(v["payload"].get("ops", [])) if v["payload"]["kind"] in ("seq", "seqv") else 99)
     res.cases = len(cases) + n_files + n_typed
     res.extra["copies_skipped_because_the_copier_fails_on_the_bare_arrays"] = len(SKIPPED)
     if ctx.build.model_ok:
@@ -444,10 +555,14 @@ def run(ctx):
                 "length 30 (model correspondence + oracle); LASFiles from tests/examples that read, and generated "
                 "LASFiles with duplicated/blank/case-variant mnemonics in ~W/~C/~P, string and float curves, the dtypes= read "
                 "option (float32/int32/int64/str per curve), appended curves of kind float32/float16/int32/int64/bool/"
-                "datetime64/object/text/2-D/empty/0-d, edited after "
+                "datetime64/object/text/2-D/empty/0-d, header items with typed payloads (value / unit / descr None, '', 0, "
+                "0.0, ints, floats, NaN, bools, numpy scalars: %d combinations) appended to ~Well / ~Params / a custom section "
+                "or set on an existing item, edited after "
                 "reading (oracle: canonical content, byte-identical write(), independence after mutating the copy), each "
                 "as LASFile, per section and per item. distinct_nontrivial = distinct copied section states / files in "
-                "which at least one session mnemonic differs from its original" % len(ic.full_alphabet()))
+                "which at least one session mnemonic differs from its original.  Operation sequences with typed payloads "
+                "(oracle only): every payload combination as a single header / curve item and in a a v, random sequences "
+                "up to length 10" % (len(ic.full_alphabet()), N_PAYLOADS))
     res.samples = [repr(meta[i][2]) for i in (0, len(meta) // 3, len(meta) // 2, len(meta) - 1)]
     res.histogram = hist
     return res
@@ -459,6 +574,8 @@ def replay(payload):
     k = payload.get("kind")
     if k == "seq":
         bad = check_seq(payload["tr"], payload["curve"], payload["ops"], names)
+    elif k == "seqv":
+        bad = check_seq(payload["tr"], payload["curve"], payload["ops"], names, typed=True)
     elif k == "corpus":
         bad = check_object_tree(lasio.read(os.path.join(lib.REPO, payload["path"])), [c for c, _ in COPIERS])
     else:
@@ -472,6 +589,10 @@ def search(ctx, res):
         bad = check_seq(m["tr"], m["curve"], m["ops"], names)
         if bad:
             yield {"payload": {"kind": "seq", "tr": m["tr"], "curve": m["curve"], "ops": m["ops"]}, "what": bad}
+    for tr, curve, ops, _fam in typed_sequences(ctx):
+        bad = check_seq(tr, curve, ops, names, typed=True)
+        if bad:
+            yield {"payload": {"kind": "seqv", "tr": tr, "curve": curve, "ops": ops}, "what": bad}
     for n in (1, 2, 3):
         for tr in (False, True):
             for tm in ic.sequences(ic.mid_alphabet(), n):
